@@ -10,7 +10,7 @@ Parts (one shard runs one part):
   sim    simutils.from_snapshot -> get_state -> write_snapshot -> Snapshot.get (no instruction executed)
 """
 import itertools
-import zlib
+import time
 
 from vk import harness
 from vk.gens import c09_ramgen as ramgen
@@ -52,24 +52,29 @@ F_SZX_TSTATES = 'C09-szx-tstates-not-reduced-to-frame'
 # ------------------------------------------------------------------ plan
 
 def plan(tier, seed):
+    """Budgets are CPU seconds of the worker (load-independent, so that coverage does not depend on what else the machine is doing);
+    'budget_s' (wall) is only a generous fallback and 'timeout' the watchdog."""
     q = tier == 'quick'
-    to = 600 if q else 7000
+    common = {'timeout': 900 if q else 9000, 'budget_s': 240 if q else 3000, 'cpu_s': 40 if q else 600}
     specs = []
     for i in range(3):
-        specs.append({'part': 'rle', 'first': i, 'timeout': to})
+        specs.append(dict(common, part='rle', first=i))
     n = 2 if q else 3
     for i in range(n):
-        specs.append({'part': 'runs', 'shard': i, 'of': n, 'timeout': to, 'budget_s': 45 if q else 1000})
+        specs.append(dict(common, part='runs', shard=i, of=n))
     n = 4 if q else 5
     for i in range(n):
-        specs.append({'part': 'snap', 'shard': i, 'of': n, 'timeout': to, 'budget_s': 38 if q else 900})
+        specs.append(dict(common, part='snap', shard=i, of=n))
     n = 2 if q else 1
     for i in range(n):
-        specs.append({'part': 'sweep', 'shard': i, 'of': n, 'timeout': to, 'budget_s': 45 if q else 1000})
+        specs.append(dict(common, part='sweep', shard=i, of=n))
     for i in range(4):
-        specs.append({'part': 'tool', 'shard': i, 'of': 4, 'timeout': to, 'budget_s': 38 if q else 900})
-    specs.append({'part': 'sim', 'shard': 0, 'of': 1, 'timeout': to, 'budget_s': 38 if q else 900})
+        specs.append(dict(common, part='tool', shard=i, of=4))
+    specs.append(dict(common, part='sim', shard=0, of=1))
     return specs
+
+def stop(shard, spec):
+    return shard.out_of_time() or time.process_time() > spec.get('cpu_s', 1e9)
 
 # ------------------------------------------------------------------ helpers: states, specs, comparison
 
@@ -314,36 +319,40 @@ def run_runs(shard, spec):
     thorough = shard.tier == 'thorough'
     key_lengths = sorted(set(list(range(1, 9)) + list(range(252, 262)) + list(range(507, 516)) + [600, 764, 765, 766, 1020, 1021]))
     key_set = set(key_lengths)
-    n = 0
+    n = distinct = 0
+    ed_seen = set()
     for val in range(256):
         if val % spec['of'] != spec['shard']:
             continue
         x = (val + 1) % 256 if (val + 1) % 256 != 0xED else 0x11
         y = (val + 7) % 256 if (val + 7) % 256 != 0xED else 0x22
-        if val == 0xED or thorough:
-            lengths = range(1, 601)
-        elif val in (0x00, 0xEC, 0xEE, 0xFF):
-            lengths = range(1, 601, 1 if val == 0 else 3)
-        else:
-            lengths = key_lengths
+        full = thorough or val in (0xED, 0x00, 0xFF, 0xEC, 0xEE)
         prefixes = [b'', b'\xed', bytes((x,)), bytes((x, 0xED)), bytes((0xED, x))]
         suffixes = [b'', b'\xed', bytes((y,)), bytes((0xED, val)), b'\xed\xed']
-        for L in lengths:
+        for L in range(1, 601):
             for pi, pre in enumerate(prefixes):
                 for si, suf in enumerate(suffixes):
-                    if val != 0xED and (pi + si + L) % 3 and (L not in (4, 5, 255, 256) if not thorough else L not in key_set):
+                    # every (value, length) is visited; all 25 neighbourhoods at the key lengths and for ED/00/FF/EC/EE, one rotating neighbourhood otherwise
+                    if not full and L not in key_set and (pi * 5 + si) != (L + val) % 25:
                         continue
                     data = pre + bytes((val,)) * L + suf
                     check_block(shard, z, data, {'why': 'runs', 'val': val, 'len': L}, forms=(True, False) if (L + pi) % 2 == 0 or val == 0xED else (True,))
-                    shard.case(data, True, sample={'part': 'runs', 'value': '%02x' % val, 'length': L, 'before': pre.hex(), 'after': suf.hex()} if n % 20011 == 0 else None)
+                    if n % 50021 == 0:
+                        shard.sample({'part': 'runs', 'value': '%02x' % val, 'length': L, 'before': pre.hex(), 'after': suf.hex()})
                     n += 1
+                    if val == 0xED:
+                        ed_seen.add(data)     # ED neighbours merge with an ED run: count distinct strings
+                    else:
+                        distinct += 1         # distinct by construction: (value, length, before, after) determines the string
+            shard.inc('observed:value_length_pairs')
             if val == 0xED:
                 shard.hist('ed_run_lengths_covered', 'n', 1)
         shard.hist('run_values_covered', 'n', 1)
-        if shard.out_of_time():
+        if stop(shard, spec):
             shard.inc('stopped_on_budget')
             shard.note_inconclusive('runs shard %d stopped on its time budget at value %d' % (spec['shard'], val))
             break
+    shard.bulk(n, distinct + len(ed_seen))
     shard.inc('observed:run_strings', n)
 
 # ------------------------------------------------------------------ part: snap / sweep
@@ -436,13 +445,13 @@ def snap_case(shard, part, case, tier_seed_rp=None):
     shard.hist('r_bit7', st['r'] >> 7)
     return ok
 
-N_SNAP = {'quick': 7000, 'thorough': 250000}
+N_SNAP = {'quick': 5200, 'thorough': 250000}
 
 def run_snap(shard, spec):
     n = N_SNAP[shard.tier]
     for case in range(spec['shard'], n, spec['of']):
         snap_case(shard, 'snap', case)
-        if shard.out_of_time():
+        if stop(shard, spec):
             shard.inc('stopped_on_budget')
             break
 
@@ -537,7 +546,7 @@ def run_sweep(shard, spec):
     for idx in range(spec['shard'], len(items), spec['of']):
         sweep_case(shard, idx, items[idx])
         done += 1
-        if shard.out_of_time():
+        if stop(shard, spec):
             shard.inc('stopped_on_budget')
             shard.note_inconclusive('sweep shard %d stopped on its time budget after %d of %d items' % (spec['shard'], done, len(items) // spec['of']))
             break
@@ -1032,7 +1041,7 @@ def bin2sna_case(shard, case):
     for kind, spec, data in memopts:
         shard.hist('bin2sna_poke', 'paged' if ':' in spec.split(',')[0] else 'plain')
 
-N_TOOL = {'quick': 5000, 'thorough': 150000}
+N_TOOL = {'quick': 4000, 'thorough': 150000}
 
 def run_tool_part(shard, spec):
     n = N_TOOL[shard.tier]
@@ -1041,7 +1050,7 @@ def run_tool_part(shard, spec):
             bin2sna_case(shard, case)
         else:
             snapmod_case(shard, case)
-        if shard.out_of_time():
+        if stop(shard, spec):
             shard.inc('stopped_on_budget')
             break
 
@@ -1102,12 +1111,12 @@ def sim_case(shard, case):
     shard.case(('sim', machine, fmt, case, st['T'], big_t), True, sample={'part': 'sim', 'machine': machine, 'fmt': fmt, 'clock_at_save': big_t} if case < 1 else None)
     shard.hist('sim_clock', 'beyond_frame' if big_t else 'in_frame')
 
-N_SIM = {'quick': 1200, 'thorough': 30000}
+N_SIM = {'quick': 1000, 'thorough': 30000}
 
 def run_sim(shard, spec):
     for case in range(spec['shard'], N_SIM[shard.tier], spec['of']):
         sim_case(shard, case)
-        if shard.out_of_time():
+        if stop(shard, spec):
             shard.inc('stopped_on_budget')
             break
 
@@ -1127,6 +1136,7 @@ def run(shard, spec):
         run_tool_part(shard, spec)
     elif part == 'sim':
         run_sim(shard, spec)
+    shard.inc('cpu_ms:' + part, int(time.process_time() * 1000))
 
 def finalize(agg, tier):
     c = agg['counters']
@@ -1138,6 +1148,8 @@ def finalize(agg, tier):
             probs.append('monitor %s observed nothing' % k)
     if c.get('observed:rle_strings_enumerated', 0) != 88572:
         probs.append('run-length enumeration incomplete: %d of 88572 strings' % c.get('observed:rle_strings_enumerated', 0))
+    if c.get('observed:value_length_pairs', 0) != 256 * 600:
+        probs.append('runs: %d of %d (value, length) pairs visited' % (c.get('observed:value_length_pairs', 0), 256 * 600))
     h = agg['hists']
     if len(h.get('machine', {})) < 3:
         probs.append('not all three machines were written')
